@@ -790,6 +790,21 @@ class Phase(Angle):
                 corr = Phase.from_angles(*divisor_parts, factor=fd, out=corr)
                 remainder = np.subtract(self, corr, out=corr)
 
+            # The estimates above are made on rounded (single-double) values,
+            # so the quotient can still be off by one when the dividend lies
+            # within rounding of a multiple of the divisor.  Settle it with
+            # exact two-double comparisons of the remainder.
+            dphase = Phase.from_angles(*divisor_parts)
+            zero = Phase(0.0)
+            dpos = dphase > zero
+            under = np.where(dpos, remainder < zero, remainder > zero)
+            over = np.where(dpos, remainder >= dphase, remainder <= dphase)
+            over &= dphase != zero
+            if np.any(under) or np.any(over):
+                fd += over.astype(float) - under.astype(float)
+                corr = Phase.from_angles(*divisor_parts, factor=fd, out=corr)
+                remainder = np.subtract(self, corr, out=corr)
+
             if function is np.floor_divide:
                 return fd
             elif function is np.remainder:
